@@ -68,7 +68,12 @@ fn main() {
                 let mut evs = cl.init_all();
                 let mut choices: Vec<Choice> = vec![];
                 sched.refresh_timeouts(&mut cl);
-                for _ in 0..steps {
+                let scripted = !sched.prof.script.is_empty();
+                if scripted {
+                    sched.run_script(&mut cl, &mut evs);
+                    choices.append(&mut sched.record);
+                }
+                for _ in 0..(if scripted { 0 } else { steps }) {
                     let c = match sched.next_choice(&cl) {
                         Some(c) => c,
                         None => break,
@@ -149,6 +154,64 @@ fn main() {
             }
             write_events(&mut w, &evs, 1);
             eprintln!("simrun: replayed {} events, {} inapplicable choices", evs.len(), skipped);
+        }
+        "resume" => {
+            // replay the first events of a recorded schedule (up to event seq --upto-seq), then continue with the
+            // random scheduler of --profile under a new --seed for --steps steps (drift-guided exploration)
+            let path = arg(&args, "--choices").expect("--choices");
+            let cf: ChoiceFile = serde_json::from_reader(File::open(&path).unwrap()).unwrap();
+            let upto: u64 = arg(&args, "--upto-seq").map(|s| s.parse().unwrap()).unwrap_or(0);
+            let pname = arg(&args, "--profile").unwrap_or_else(|| cf.profile.clone());
+            let seed0: u64 = arg(&args, "--seed").map(|s| s.parse().unwrap()).unwrap_or(1);
+            let count: u64 = arg(&args, "--count").map(|s| s.parse().unwrap()).unwrap_or(1);
+            let steps: usize = arg(&args, "--steps").map(|s| s.parse().unwrap()).unwrap_or(300);
+            let choices_dir = arg(&args, "--save-choices");
+            let mut total = 0usize;
+            for k in 0..count {
+                let seed = seed0 + k;
+                let mut prof = Profile::named(&pname).unwrap_or_else(|| Profile::base(&pname));
+                prof.ids = cf.cfg.ids.clone();
+                prof.script = String::new();
+                prof.stabilize_rounds = 0;
+                prof.lease_rounds = 0;
+                let (mut sched, _unused) = Sched::new(prof, seed);
+                let mut cl = Cluster::new(cf.cfg.clone());
+                reset_line(&mut w, k + 1, &pname, seed, &cl.cfg);
+                let mut evs = cl.init_all();
+                let mut applied: Vec<Choice> = vec![];
+                for c in &cf.choices {
+                    if upto > 0 && cl.seq >= upto {
+                        break;
+                    }
+                    if let Some(e) = cl.apply_choice(c) {
+                        evs.push(e);
+                    }
+                    applied.push(c.clone());
+                }
+                sched.refresh_timeouts(&mut cl);
+                for _ in 0..steps {
+                    let c = match sched.next_choice(&cl) {
+                        Some(c) => c,
+                        None => break,
+                    };
+                    for slot in cl.nodes.iter() {
+                        applied.push(Choice::SetTimeout { n: slot.id, rt: slot.rt_next as u64 });
+                    }
+                    if let Some(e) = cl.apply_choice(&c) {
+                        evs.push(e);
+                        applied.push(c);
+                    }
+                    sched.refresh_timeouts(&mut cl);
+                }
+                total += evs.len();
+                write_events(&mut w, &evs, k + 1);
+                if let Some(d) = &choices_dir {
+                    std::fs::create_dir_all(d).unwrap();
+                    let out = ChoiceFile { profile: pname.clone(), seed, cfg: cf.cfg.clone(), choices: applied };
+                    serde_json::to_writer(File::create(format!("{}/{}-{}.json", d, pname, seed)).unwrap(), &out).unwrap();
+                }
+            }
+            eprintln!("simrun: profile={} runs={} events={} panics=0", pname, count, total);
         }
         "replaymc" => {
             // --lines: one JSON object per line {"h":[choice,...]} (TLC schedules); --cfg: ClusterCfg json
